@@ -141,8 +141,33 @@ pub(crate) struct RecentSnapshot {
     pub end_offset: u64,
     /// 1-based line number at `bytes[0]}`.
     pub start_line: usize,
+    /// Whether `bytes[0]` is the first byte of a line (start of the stream, or right after a
+    /// line break). `false` when the beginning of the first retained line has been evicted.
+    pub starts_at_line_start: bool,
     /// Snapshot bytes (oldest -> newest).
     pub bytes: Vec<u8>,
+}
+
+impl RecentSnapshot {
+    /// The snapshot as text for snippet rendering, with the 1-based number of its first line.
+    ///
+    /// When the retained window starts in the middle of a line (the beginning of that line has
+    /// been evicted), the partial line is left out: columns of a location on it cannot be mapped
+    /// onto the remaining tail, so no snippet is better than one that marks the wrong character.
+    pub(crate) fn line_aligned_text(&self) -> (std::borrow::Cow<'_, str>, usize) {
+        let text = String::from_utf8_lossy(&self.bytes);
+        if self.starts_at_line_start {
+            return (text, self.start_line);
+        }
+        let rest = match text.find('\n') {
+            Some(nl) => text[nl + 1..].to_owned(),
+            None => String::new(),
+        };
+        (
+            std::borrow::Cow::Owned(rest),
+            self.start_line.saturating_add(1),
+        )
+    }
 }
 
 /// A `Read` wrapper that:
@@ -163,6 +188,9 @@ pub(crate) struct RingReader<R> {
     ring_start_offset: u64,
     // 1-based line number at ring[0] (valid only when ring is non-empty).
     ring_start_line: usize,
+    // Whether ring[0] is the first byte of a line (nothing evicted yet, or the last evicted
+    // byte was a line break).
+    ring_starts_line: bool,
 
     // Read-ahead bytes (only filled by get_recent()).
     //
@@ -193,6 +221,7 @@ impl<R> RingReader<R> {
             ring: FixedRingBuffer::new(),
             ring_start_offset: 0,
             ring_start_line: 1,
+            ring_starts_line: true,
             stash: FixedRingBuffer::new(),
             returned_total: 0,
         }
@@ -249,9 +278,15 @@ impl<R> RingReader<R> {
         }
 
         let (mut start_offset, mut start_line, mut bytes) = self.ring_snapshot();
+        let mut starts_at_line_start = self.ring_starts_line;
         if !bytes.is_empty() {
+            let ring_start_offset = start_offset;
             (start_offset, start_line, bytes) =
                 trim_to_utf8_boundaries_with_line(bytes, start_offset, start_line);
+            // Leading continuation bytes were dropped: the snapshot starts inside a line.
+            if start_offset != ring_start_offset {
+                starts_at_line_start = false;
+            }
         }
 
         let end_offset = start_offset.saturating_add(bytes.len() as u64);
@@ -260,6 +295,7 @@ impl<R> RingReader<R> {
             start_offset,
             end_offset,
             start_line,
+            starts_at_line_start,
             bytes,
         })
     }
@@ -296,6 +332,7 @@ impl<R> RingReader<R> {
                 if evicted == Some(b'\n') {
                     self.ring_start_line = self.ring_start_line.saturating_add(1);
                 }
+                self.ring_starts_line = evicted == Some(b'\n');
             }
 
             self.ring.push_back(b);
